@@ -52,7 +52,16 @@ class Ctx:
         self.seed = seed
         self.rng = random.Random(seed * 1000003 + int(hashlib.sha1(pid.encode()).hexdigest()[:6], 16))
         self.t0 = time.time()
-        self.work = '%s/work/%s' % (BUILD, pid)
+        # one scratch directory per running check (several checks of the same property may run at once);
+        # directories of processes that no longer exist are removed
+        wroot = '%s/work' % BUILD
+        os.makedirs(wroot, exist_ok=True)
+        for d in os.listdir(wroot):
+            if d == pid or d.startswith(pid + '.'):
+                owner = d.split('.')[-1] if '.' in d else ''
+                if not (owner.isdigit() and os.path.exists('/proc/' + owner)):
+                    shutil.rmtree(os.path.join(wroot, d), ignore_errors=True)
+        self.work = '%s/%s.%d' % (wroot, pid, os.getpid())
         shutil.rmtree(self.work, ignore_errors=True)
         os.makedirs(self.work, exist_ok=True)
         self.replays = V + '/replays'
